@@ -23,14 +23,15 @@ Definition model_lit_into_ty_arms : list arm :=
     ([(LPFloat, CPOrderedF64)], FTrue);   (* 13 *)
     ([(LPAny, CPAdtNewType)], FDyn);      (* 14 *)
     ([(LPMap, CPStaticRef)], FFalse);     (* 15 *)
-    ([(LPList, CPArray)], FDyn);          (* 16 *)
-    ([(LPList, CPVec)], FFalse);          (* 17 *)
-    ([(LPList, CPSet)], FFalse);          (* 18 *)
-    ([(LPList, CPBTreeSet)], FFalse);     (* 19 *)
-    ([(LPBool, CPBool)], FTrue);          (* 20 *)
-    ([(LPInt, CPBool)], FTrue);           (* 21 *)
-    ([(LPString, CPBytes)], FTrue);       (* 22 *)
-    ([(LPMap, CPAdtStruct)], FDyn) ].     (* 23 *)
+    ([(LPList, CPStaticRefColl)], FFalse);(* 16 *)
+    ([(LPList, CPArray)], FDyn);          (* 17 *)
+    ([(LPList, CPVec)], FFalse);          (* 18 *)
+    ([(LPList, CPSet)], FFalse);          (* 19 *)
+    ([(LPList, CPBTreeSet)], FFalse);     (* 20 *)
+    ([(LPBool, CPBool)], FTrue);          (* 21 *)
+    ([(LPInt, CPBool)], FTrue);           (* 22 *)
+    ([(LPString, CPBytes)], FTrue);       (* 23 *)
+    ([(LPMap, CPAdtStruct)], FDyn) ].     (* 24 *)
 
 Lemma lit_into_ty_arms_pinned : lit_into_ty_arms = model_lit_into_ty_arms.
 Proof. reflexivity. Qed.
@@ -56,7 +57,7 @@ Proof. repeat split; reflexivity. Qed.
 (* const_cty is the transformer those overrides describe *)
 Lemma const_cty_overrides S0 a b :
   ckind S0 (const_cty RString) = Some CPStr /\ ckind S0 (const_cty RFastStr) = Some CPStr /\
-  const_cty (RVec a) = CArray (const_cty a) /\
+  const_cty (RVec a) = CArray (undyn (const_cty a)) /\
   const_cty (RSet a) = CStaticRef (CSet (undyn (const_cty a))) /\
   const_cty (RBTreeSet a) = CStaticRef (CBTreeSet (undyn (const_cty a))) /\
   const_cty (RMap a b) = CStaticRef (CMap (undyn (const_cty a)) (undyn (const_cty b))) /\
@@ -463,9 +464,8 @@ Section Main.
 
   Lemma not_arc_kind x : is_arc_cty x = false -> ckind S x <> Some CPArc.
   Proof.
-    destruct x; cbn; try discriminate.
-    - destruct x; discriminate.
-    - destruct (item S n) as [[]|]; discriminate.
+    destruct x; cbn; try discriminate; try (destruct x; discriminate).
+    destruct (item S n) as [[]|]; discriminate.
   Qed.
 
   Lemma ident_item_scalar c ct lc : nth_error (ls_consts S) c = Some (ct, lc) ->
